@@ -127,11 +127,19 @@ def compare(tb, ta, exact, path=()):
         if db is not None and db != da:
             yield path, "dimension-differs"
             return
+        if _INT_DIV0["on"] and tb[1].dtype.kind in "iu" and ta[1].dtype.kind == "f" and va.shape == vb.shape:
+            # integer division by zero has no defined value in the integer path (NumPy stores 0) and inf/nan in the
+            # float path an int -> float unit conversion moves the computation to: those positions are not compared
+            sel = np.isfinite(va)
+            va, vb = va[sel], vb[sel]
         m = cmp_arr(va, vb, exact)
         if m:
             yield path, ("bare-result-" if db is None else "quantity-") + m
     elif tb[0] in ("val", "str"):
         pass  # strings / dtypes: not a C07 matter
+
+
+_INT_DIV0 = {"on": False}
 
 
 def check_same_class(ctx, t, dt, sysname, tree, slotdim, case):
@@ -229,6 +237,57 @@ def run_one(ctx, t, dt, pack, sysname, reg, base_units, alts):
             ctx.sample({"case": case, "baseline": short(tb), "alternative": short(ta)})
 
 
+def split_alts(t, dt):
+    """one input re-expressed on its own while the other inputs of its dimension keep their unit"""
+    byslot = {}
+    for name, (slot, _shape, _gen) in t.inputs.items():
+        if slot:
+            byslot.setdefault(slot[0], []).append(name)
+    out = []
+    for slot, names in byslot.items():
+        if len(names) < 2 or slot not in SLOT_LETTER:
+            continue
+        for n in names[:4]:
+            tag = "h" if dt == "i" else "q"
+            f = 1.0 / DY[tag]
+            out.append((f"only:{n}:{tag}", {n: (SLOT_LETTER[slot] + tag, int(f) if dt == "i" else f)}))
+    return out
+
+
+def run_split(ctx, t, dt, pack, reg, base_units):
+    if t.flags.get("noncov"):
+        return
+    alts = split_alts(t, dt)
+    if not alts:
+        return
+    data = core.build_data(t, pack, dt)
+    exact = not t.flags.get("tol")
+    kb = R.mk_unyt(t, data, base_units, registry=reg)
+    stb, tb, _ = R.execute(t, kb)
+    if stb != "ok":
+        return
+    inpl = t.flags.get("inplace", ())
+    tgt_b = {n: core.tree(kb[n]) for n in inpl}
+    _INT_DIV0["on"] = dt == "i"
+    for label, by_name in alts:
+        ctx.count("evaluations")
+        ka = R.mk_unyt(t, data, base_units, registry=reg, by_name=by_name)
+        sta, ta, _ = R.execute(t, ka)
+        case = {"func": t.func, "tid": t.tid, "dt": dt, "pack": pack, "sys": "split", "chg": label}
+        ctx.outcome((t.func, t.tid, dt, "split", sta))
+        if sta != "ok":
+            ctx.count("split_units_refused")  # a function may insist on identical units: refusing is not a C07 matter
+            continue
+        ctx.decided((t.func, t.tid, dt, pack, "split", label))
+        for path, mode in compare(tb, ta, exact):
+            lf = "|leaf=" + ".".join(map(str, path)) if path else ""
+            ctx.violation(key(t, dt, "split", mode, lf), case, short(_at(tb, path)), short(_at(ta, path)))
+        for n in inpl:
+            for path, mode in compare(tgt_b[n], core.tree(ka[n]), exact):
+                ctx.violation(key(t, dt, "split", "target-" + mode, "|target=" + n), case, short(tgt_b[n]), short(core.tree(ka[n])))
+    _INT_DIV0["on"] = False
+
+
 def _at(tr, path):
     for p in path:
         tr = tr[1][p]
@@ -277,6 +336,8 @@ def run_template(ctx, t, dt, pack, reg, tier, only=None):
     full = {"X": "L1", "Y": "T1", "W": "M1"}
     if only in (None, "dyadic"):
         run_one(ctx, t, dt, pack, "dyadic", reg, full, dyadic_alts(t, dt, tier))
+    if only in (None, "split"):
+        run_split(ctx, t, dt, pack, reg, full)
     if only in (None, "ordinary"):
         oa = ordinary_alts(t, dt, tier)
         if oa:
